@@ -2965,8 +2965,12 @@ func fileFromReadSeeker(name string, reader io.ReadSeeker) *File {
 		Name:   name,
 		Header: make(map[string][]string),
 		Writer: func(writer io.Writer) (int64, error) {
+			start, seekErr := reader.Seek(0, io.SeekCurrent)
+			if seekErr != nil {
+				return 0, seekErr
+			}
 			readBytes, err := io.Copy(writer, reader)
-			if _, seekErr := reader.Seek(0, io.SeekStart); err == nil {
+			if _, seekErr = reader.Seek(start, io.SeekStart); err == nil {
 				err = seekErr
 			}
 			return readBytes, err
